@@ -179,12 +179,10 @@ def pruneOps (ps : List Pack) (idx : IndexFile) (rmIdx rmPacks : List Nat) : Lis
 files.  If the new index lists only stored packs, every needed key stays covered by an index file that is kept, and
 no removed pack is listed by a kept index file, then every prefix of prune's operations leaves a consistent
 repository — nothing a snapshot needs is unreadable at any crash point. -/
-theorem prune_protocol_safe (r : Repo) (ps : List Pack) (idx : IndexFile) (rmIdx rmPacks : List Nat)
-    (h : consistent r = true)
+theorem pruneOps_allSafe (r : Repo) (ps : List Pack) (idx : IndexFile) (rmIdx rmPacks : List Nat)
     (hidx : idx.packs.all (idxPackSound (applyAll r (ps.map Op.writePack))) = true)
     (hc : PruneCover (applyAll r (ps.map Op.writePack ++ [Op.writeIndex idx])) rmIdx rmPacks) :
-    ∀ r' ∈ prefixStates r (pruneOps ps idx rmIdx rmPacks), consistent r' = true := by
-  apply safe_run _ r h
+    allSafe r (pruneOps ps idx rmIdx rmPacks) = true := by
   unfold pruneOps
   rw [allSafe_append, allSafe_append, allSafe_append]
   simp only [Bool.and_eq_true]
@@ -198,6 +196,141 @@ theorem prune_protocol_safe (r : Repo) (ps : List Pack) (idx : IndexFile) (rmIdx
     rw [applyAll_append] at hi
     obtain ⟨h1, h2⟩ := s3 i hi
     exact s2.unlisted i hi h2 p hp
+
+theorem prune_protocol_safe (r : Repo) (ps : List Pack) (idx : IndexFile) (rmIdx rmPacks : List Nat)
+    (h : consistent r = true)
+    (hidx : idx.packs.all (idxPackSound (applyAll r (ps.map Op.writePack))) = true)
+    (hc : PruneCover (applyAll r (ps.map Op.writePack ++ [Op.writeIndex idx])) rmIdx rmPacks) :
+    ∀ r' ∈ prefixStates r (pruneOps ps idx rmIdx rmPacks), consistent r' = true :=
+  safe_run _ r h (pruneOps_allSafe r ps idx rmIdx rmPacks hidx hc)
+
+/-- the flag combinations the property covers (only instant-delete + early-delete-index is excluded) all run the SAFE order:
+in particular `early_delete_index` WITHOUT `instant_delete` is inert — the rebuilt index files are removed after the new
+index is written (index removal last), exactly like plain prune. -/
+theorem pruneOpsOpt_covered_is_safe_order (f : PruneFlags) (hf : ¬(f.instantDelete = true ∧ f.earlyDeleteIndex = true))
+    (ps : List Pack) (idx : IndexFile) (rmIdx rmPacks : List Nat) :
+    pruneOpsOpt f ps idx rmIdx rmPacks = pruneOps ps idx rmIdx rmPacks := by
+  have he : f.early = false := by
+    cases f with
+    | mk i e => cases i <;> cases e <;> simp_all [PruneFlags.early]
+  simp [pruneOpsOpt, pruneOps, he]
+
+/-- **prune, every covered option combination** (`instant_delete` × `early_delete_index` except both): every prefix of the
+operations `prune_repository` issues leaves a consistent repository (premises as in `prune_protocol_safe`). -/
+theorem prune_protocol_safe_all_options (f : PruneFlags) (hf : ¬(f.instantDelete = true ∧ f.earlyDeleteIndex = true))
+    (r : Repo) (ps : List Pack) (idx : IndexFile) (rmIdx rmPacks : List Nat)
+    (h : consistent r = true)
+    (hidx : idx.packs.all (idxPackSound (applyAll r (ps.map Op.writePack))) = true)
+    (hc : PruneCover (applyAll r (ps.map Op.writePack ++ [Op.writeIndex idx])) rmIdx rmPacks) :
+    ∀ r' ∈ prefixStates r (pruneOpsOpt f ps idx rmIdx rmPacks), consistent r' = true := by
+  rw [pruneOpsOpt_covered_is_safe_order f hf]
+  exact prune_protocol_safe r ps idx rmIdx rmPacks h hidx hc
+
+/-- **all of `prune_repository`, every covered option combination**: with `instant_delete` the stored packs that no index
+file lists (`unindexed`) are removed first, then the tail (`pruneOpsOpt`).  Every prefix is consistent. -/
+theorem prune_full_protocol_safe (f : PruneFlags) (hf : ¬(f.instantDelete = true ∧ f.earlyDeleteIndex = true))
+    (r : Repo) (unindexed : List Nat) (ps : List Pack) (idx : IndexFile) (rmIdx rmPacks : List Nat)
+    (h : consistent r = true)
+    (hun : ∀ i ∈ r.indexes, ∀ p ∈ i.packs, p.id ∉ unindexed)
+    (hidx : idx.packs.all (idxPackSound (applyAll (applyAll r (if f.instantDelete then unindexed.map Op.removePack else []))
+      (ps.map Op.writePack))) = true)
+    (hc : PruneCover (applyAll (applyAll r (if f.instantDelete then unindexed.map Op.removePack else []))
+      (ps.map Op.writePack ++ [Op.writeIndex idx])) rmIdx rmPacks) :
+    ∀ r' ∈ prefixStates r (pruneOpsFull f unindexed ps idx rmIdx rmPacks), consistent r' = true := by
+  apply safe_run _ r h
+  unfold pruneOpsFull
+  rw [allSafe_append, pruneOpsOpt_covered_is_safe_order f hf, Bool.and_eq_true]
+  refine ⟨?_, pruneOps_allSafe _ ps idx rmIdx rmPacks hidx hc⟩
+  cases f.instantDelete with
+  | false => rfl
+  | true => exact allSafe_removePacks unindexed unindexed r (fun _ h => h) hun
+
+theorem dropWhile_append_all {α : Type} (q : α → Bool) : ∀ (l r : List α), (∀ c ∈ l, q c = true) →
+    (l ++ r).dropWhile q = r.dropWhile q
+  | [], _, _ => rfl
+  | a :: l, r, h => by
+    simp only [List.cons_append, List.dropWhile_cons, h a List.mem_cons_self, if_true]
+    exact dropWhile_append_all q l r (fun c hc => h c (List.mem_cons_of_mem _ hc))
+
+theorem dropWhile_none {α : Type} (q : α → Bool) : ∀ (l : List α), (∀ c ∈ l, q c = false) → l.dropWhile q = l
+  | [], _ => rfl
+  | a :: l, h => by simp [List.dropWhile_cons, h a List.mem_cons_self]
+
+/-- the operations of the model are in the phase language the monitor uses for the command (so the table the driver checks
+real traces against is the model's, not a second description) -/
+theorem pruneOpsFull_in_phase_language (f : PruneFlags) (hf : ¬(f.instantDelete = true ∧ f.earlyDeleteIndex = true))
+    (unindexed : List Nat) (ps : List Pack) (idx : IndexFile) (rmIdx rmPacks : List Nat) :
+    matchPhases (prunePhases f) ((pruneOpsFull f unindexed ps idx rmIdx rmPacks).map Op.kind) = true := by
+  have he : f.early = false := by
+    cases f with
+    | mk i e => cases i <;> cases e <;> simp_all [PruneFlags.early]
+  have hP : ∀ c ∈ (ps.map Op.writePack).map Op.kind, c = 'P' := by
+    intro c hc
+    simp only [List.map_map, List.mem_map, Function.comp] at hc
+    obtain ⟨_, _, rfl⟩ := hc; rfl
+  have hi : ∀ c ∈ (rmIdx.map Op.removeIndex).map Op.kind, c = 'i' := by
+    intro c hc
+    simp only [List.map_map, List.mem_map, Function.comp] at hc
+    obtain ⟨_, _, rfl⟩ := hc; rfl
+  have hp : ∀ (l : List Nat), ∀ c ∈ (l.map Op.removePack).map Op.kind, c = 'p' := by
+    intro l c hc
+    simp only [List.map_map, List.mem_map, Function.comp] at hc
+    obtain ⟨_, _, rfl⟩ := hc; rfl
+  -- the tail: [P I]* i* p*
+  have tail : matchPhases [['P', 'I'], ['i'], ['p']]
+      ((ps.map Op.writePack).map Op.kind ++ (['I'] ++ ((rmIdx.map Op.removeIndex).map Op.kind ++
+        (rmPacks.map Op.removePack).map Op.kind))) = true := by
+    simp only [matchPhases]
+    have e1 : ((ps.map Op.writePack).map Op.kind ++ (['I'] ++ ((rmIdx.map Op.removeIndex).map Op.kind ++
+        (rmPacks.map Op.removePack).map Op.kind))).dropWhile (fun c => ['P', 'I'].contains c) =
+        (rmIdx.map Op.removeIndex).map Op.kind ++ (rmPacks.map Op.removePack).map Op.kind := by
+      rw [dropWhile_append_all (fun c => ['P', 'I'].contains c) ((ps.map Op.writePack).map Op.kind) _
+          (fun c hc => by rw [hP c hc]; decide),
+        dropWhile_append_all (fun c => ['P', 'I'].contains c) ['I'] _ (fun c hc => by simp at hc; subst hc; decide),
+        dropWhile_none (fun c => ['P', 'I'].contains c) _ (fun c hc => by
+          rcases List.mem_append.mp hc with h | h
+          · rw [hi c h]; decide
+          · rw [hp _ c h]; decide)]
+    have e2 : ((rmIdx.map Op.removeIndex).map Op.kind ++ (rmPacks.map Op.removePack).map Op.kind).dropWhile
+        (fun c => ['i'].contains c) = (rmPacks.map Op.removePack).map Op.kind := by
+      rw [dropWhile_append_all (fun c => ['i'].contains c) ((rmIdx.map Op.removeIndex).map Op.kind) _
+          (fun c hc => by rw [hi c hc]; decide),
+        dropWhile_none (fun c => ['i'].contains c) _ (fun c hc => by rw [hp _ c hc]; decide)]
+    have e3 : ((rmPacks.map Op.removePack).map Op.kind).dropWhile (fun c => ['p'].contains c) = [] := by
+      have := dropWhile_append_all (fun c => ['p'].contains c) ((rmPacks.map Op.removePack).map Op.kind) []
+        (fun c hc => by rw [hp _ c hc]; decide)
+      simpa using this
+    rw [e1, e2, e3]; rfl
+  unfold pruneOpsFull prunePhases pruneOpsOpt
+  simp only [he, Bool.false_eq_true, if_false, List.nil_append, List.append_nil, List.map_append, List.map_cons, List.map_nil,
+    Op.kind, List.append_assoc]
+  cases hI : f.instantDelete with
+  | false => simpa using tail
+  | true =>
+    simp only [if_true, List.cons_append, List.nil_append, matchPhases]
+    rw [dropWhile_append_all _ _ _ (fun c hc => by rw [hp _ c hc]; decide)]
+    -- the next kind is `P` or `I`: the phase of the unindexed packs ends here
+    have hstop : ∀ (l : List Char), (∀ c ∈ l, c = 'P') → ∀ rest,
+        (l ++ ('I' :: rest)).dropWhile (fun c => ['p'].contains c) = l ++ ('I' :: rest) := by
+      intro l hl rest
+      cases l with
+      | nil => simp [List.dropWhile_cons]
+      | cons a l' =>
+        have : a = 'P' := hl a List.mem_cons_self
+        subst this
+        simp [List.dropWhile_cons]
+    rw [hstop _ hP]
+    simpa [matchPhases] using tail
+
+/-- `early_delete_index = true, instant_delete = false` — inside the property — is the order packs → new index → old index
+files → old packs; were the option honoured on its own (seeded change C03-5) the old index files would go first and the
+prefix after the first removal has a snapshot without index (`prune_early_delete_index_unsafe`). -/
+theorem prune_early_without_instant_removes_index_last (ps : List Pack) (idx : IndexFile) (rmIdx rmPacks : List Nat) :
+    pruneOpsOpt ⟨false, true⟩ ps idx rmIdx rmPacks =
+      ps.map Op.writePack ++ [Op.writeIndex idx] ++ rmIdx.map Op.removeIndex ++ rmPacks.map Op.removePack ∧
+    pruneOpsOpt ⟨true, true⟩ ps idx rmIdx rmPacks =
+      rmIdx.map Op.removeIndex ++ ps.map Op.writePack ++ [Op.writeIndex idx] ++ rmPacks.map Op.removePack := by
+  simp [pruneOpsOpt, PruneFlags.early]
 
 /-! ### (3) negative results: orders that are *not* safe -/
 
@@ -233,6 +366,13 @@ theorem repairIndex_write_first_safe :
 old index files first leaves a prefix without index. -/
 theorem prune_early_delete_index_unsafe :
     firstBad wRepo [.removeIndex 1, .writeIndex { id := 2, packs := [{ id := 1, blobs := [wKey] }] }] ≠ none := by decide
+
+/-- non-vacuity + the witness: on `wRepo` (one pack, one index file, one snapshot) a prune that rebuilds the index is safe at
+every prefix for (instant, early) ∈ {(0,0), (1,0), (0,1)} and has an inconsistent prefix for (1,1) -/
+theorem prune_flag_table :
+    let idx : IndexFile := { id := 2, packs := [{ id := 1, blobs := [wKey] }] }
+    [(false, false), (true, false), (false, true), (true, true)].map
+      (fun (i, e) => firstBad wRepo (pruneOpsOpt ⟨i, e⟩ [] idx [1] [])) = [none, none, none, some 1] := by decide
 
 /-- indexing a pack before writing it is visible as an unsound index at the prefix in between. -/
 theorem index_before_pack_unsafe :
